@@ -87,6 +87,7 @@ fn gen_case(dna: &[u8], base: &crate::gen::GenCfg) -> Case {
 fn check(ctx: &Ctx, c: &Case, label: &str, counting: bool) -> Result<(), Fail> {
 	let m = &c.m;
 	let bytes = c.raw.serialize();
+	super::sibling_history(&c.m, &bytes);
 	let plain = m.encode();
 	let extra_bytes = m.extra.pre + m.extra.post + m.extra.item + m.extra.fstart + m.extra.fend;
 	let se_extra = m.extra.gstart + m.extra.gend;
